@@ -351,16 +351,23 @@ def execute(case: dict) -> dict:  # noqa: C901, PLR0915
                         diverted.add(owner_of.get((node_name, tname, cid)))      # the circuit is half dead from here on: not judged
                         world.probe("forged_destroy_for_surviving_half_of_relay_pair")
                         c.nontrivial(f"destroy_half_pair/{after_expiry}")
-                        n_d = len(destroys_seen)
+                        # (the sweep may remove the surviving direction for inactivity at any moment - nothing refreshes it any more -
+                        #  so the removal REQUEST made by the destroy handler is what is observed, not the table)
+                        calls: list = []
+                        orig_rr = target.ov.remove_relay
+
+                        def spy_rr(cid_, info="", *a, _o=orig_rr, _calls=calls, **k):  # noqa: ANN001, ANN002, ANN003, ANN202
+                            _calls.append((cid_, str(info)))
+                            return _o(cid_, info, *a, **k)
+                        target.ov.remove_relay = spy_rr
                         adv.call(adv.ov.send_destroy, target.address, cid, 1 + int(pick * 3))
                         await asyncio.sleep(0.5)
-                        fwd = [d for d in destroys_seen[n_d:] if d.src_node == target.name]
-                        freed.add(cid)        # the surviving direction will time out too (nothing refreshes it any more)
-                        if fwd or cid not in target.ov.relay_from_to:
+                        del target.ov.remove_relay
+                        freed.add(cid)
+                        if any(cid_ == cid and info.startswith("got destroy") for cid_, info in calls):
                             c.violate("tables_unchanged", "destroy_of_third_party_accepted_for_half_expired_relay_pair",
                                       f"{node_name} holds only one direction of a relay pair (the other timed out on its own); a destroy for "
-                                      f"id {cid} signed by a node that is not on the circuit was accepted: "
-                                      f"{'destroy passed on to ' + str(fwd[0].dst) if fwd else 'entry removed'}")
+                                      f"id {cid} signed by a node that is not on the circuit made it remove the entry and pass the destroy on")
             elif kind == "first_data_replay":
                 # a fresh circuit; an on-path observer copies the first data cell on the last link and sends the copy to the exit from
                 # its own address so that it arrives first (cells carry no replay protection: the copy decrypts)
@@ -574,6 +581,8 @@ def execute(case: dict) -> dict:  # noqa: C901, PLR0915
                 c.violate("tables_unchanged", f"entry_readdressed:{tname}",
                           f"{node}.{tname}[{cid}]: the address of its neighbour on the circuit changed from {addr0} to {now[4]}"
                           f"{' (the adversary)' if now[4] == tuple(adv.address) else ''}; attacks={[a['kind'] for a in case['attacks']]}")
+        # ids of circuits that are no longer judged (diverted / half dead: they may be given up by their owner at any moment)
+        freed |= {k3[2] for k3, idx3 in owner_of.items() if idx3 in diverted}
         for key in after:
             # (an id that was freed by the legitimate teardown above is free: a create naming it afterwards is a new circuit)
             if key not in before and key[2] in {k[2] for k in before} and key[2] not in legit_gone and key[2] not in freed:
